@@ -59,8 +59,11 @@ Proof. exact (validated_before_unwrap rq g). Qed.
 
 (* An HTTP request answered with anything but 200 leaves the tower state as it was (up to the ghost RPC log
    the core resets at the start of every operation), in every tower state, reachable or not, whatever
-   operation `den` of the core the request denotes - provided the core does not abort (C11's sites). *)
+   operation `den` of the core the request denotes - provided the core does not abort (C11's sites) and the
+   users the gatekeeper knows have their rows in table users (user_row_ok; every reachable state has it:
+   TowerInv.inv_user_rows - otherwise the repaired store refuses an appointment that was already charged). *)
 Theorem C15_non200_unchanged le t reachable rq den sc t' r :
+  (forall u, user_row_ok t u) ->
   (forall o, den = Some o -> his_api_op o = true) ->
   (forall o s, den = Some o -> snd (step le t o sc) <> OAbort s) ->
   hserve le t reachable rq den sc = (t', r) ->
